@@ -441,7 +441,7 @@ func NewNetwork(cs CaseSpec, res *CaseResult) *Network {
 		panic(err)
 	}
 	nw := &Network{
-		Seed:                    cs.Seed*1000003 + int64(cs.Index),
+		Seed:                    pinSeed(cs),
 		Rng:                     cs.rng("net"),
 		byAddr:                  map[string]*SimNode{},
 		Res:                     res,
@@ -1045,4 +1045,9 @@ func peerKeys(ps []*peers.Peer) string {
 		s = append(s, k)
 	}
 	return fmt.Sprint(s)
+}
+
+func pinSeed(cs CaseSpec) int64 {
+	_, seed, index := cs.pinned()
+	return seed*1000003 + int64(index)
 }
